@@ -208,7 +208,7 @@ def readers_writers(sp, rig="L", api="scan", writer="txn_delete_rollback", K=2, 
 
 def obligations(tier):
     obs = []
-    T = 400 if tier == "quick" else 1800
+    T = 400 if tier == "quick" else 1200
     if tier == "quick":
         cfgs = [("L", "scan", "txn_delete_rollback", 1), ("L", "row_count", "txn_delete_rollback", 1), ("L", "scan_batches", "replace_failed", 1),
                 ("L", "scan", "replace_failed", 1), ("L", "row_count", "replace_failed", 1),
